@@ -74,8 +74,13 @@ func genC10(seed int64, tier string) *Scenario {
 		openList = append(openList, n)
 	}
 	sort.Strings(openList)
+	lastDoc := ""
 	for i := 0; i < k; i++ {
 		n := openList[r.Intn(len(openList))]
+		if lastDoc != "" && open[lastDoc] && r.Intn(10) < 6 {
+			n = lastDoc // queries and edits on the same document are what races on its state
+		}
+		lastDoc = n
 		pos := identPositions(cur[n])
 		p := Pos{r.Intn(4), r.Intn(8)}
 		if len(pos) > 0 && r.Intn(5) > 0 {
